@@ -712,3 +712,10 @@ M('C09', 'refactor2-clock-locals-order', AUTH, """    let last_rotation_timestam
 """, equiv=True)
 M('C10', 'refactor2-amount-try_from', ABI, """                    amount: to_i128(decoded.amount)?,""", """                    amount: i128::try_from(decoded.amount).map_err(|_| ContractError::InvalidAmount)?,""", equiv=True)
 MUTANTS.append(dict(MUTANTS[-1], prop='C05', id='refactor2-amount-try_from-c05'))
+
+# ---------------- gaps found by the global fact-level survivor analysis ----------------
+M('C06', 'transfer-ownership-does-not-transfer', OWN, '    set_owner(env, &new_owner);\n\n    OwnershipTransferredEvent', '    OwnershipTransferredEvent', 'C06.R2')
+M('C02', 'validate-no-executed-event', GW, '            event::execute_message(&env, message);\n\n            return true;', '            let _ = message;\n\n            return true;', 'C02.R3')
+M('C11', 'token-add_minter-noop', TOK, '        env.storage()\n            .instance()\n            .set(&DataKey::Minter(minter.clone()), &());\n\n        extend_instance_ttl(env);\n\n        event::add_minter(env, minter);', '        extend_instance_ttl(env);\n\n        event::add_minter(env, minter);', 'C11.R4')
+M('C04', 'remove_trusted_chain-noop', ITS, '        env.storage().persistent().remove(&key);\n\n        TrustedChainRemovedEvent', '        TrustedChainRemovedEvent', 'C04.R2')
+M('C10', 'from_vec-inverted', ABI, '    if value.is_empty() {\n        None\n    } else {\n        Some(Bytes::from_slice(env, value))\n    }', '    if !value.is_empty() {\n        None\n    } else {\n        Some(Bytes::from_slice(env, value))\n    }', 'C10.R8')
